@@ -134,6 +134,8 @@ pub struct Model {
     /// comparison - consulted only where the specification leaves the outcome open (a SUBSCRIBE
     /// whose length depends on the 1-4 byte identifier the library is free to choose)
     pub observed_size_refusals: BTreeSet<usize>,
+    /// real length of the wire packet being compared
+    pub cur_wire_len: Option<usize>,
     /// sub ids seen so far (freshness)
     pub seen_sub_ids: BTreeSet<u32>,
     pub hits: Vec<&'static str>,
@@ -192,6 +194,7 @@ impl Model {
             next_sub_guess: 1,
             sub_len_exact: false,
             observed_size_refusals: BTreeSet::new(),
+            cur_wire_len: None,
             seen_sub_ids: BTreeSet::new(),
             hits: vec![],
             check_wire: true,
@@ -1175,7 +1178,7 @@ impl Model {
                 }
                 // C12: nothing longer than the announced Maximum Packet Size is ever written
                 if let Some(mx) = self.m {
-                    let l = encode_client(got).len();
+                    let l = self.cur_wire_len.unwrap_or_else(|| encode_client(got).len());
                     if l as u64 > mx as u64 {
                         return Err(Mismatch {
                             rule: format!("wire-oversized:{}", want.kind()),
@@ -1285,6 +1288,7 @@ impl Model {
                     }
                     wire_dead = true;
                 }
+                Ob::WireLen(n) => self.cur_wire_len = Some(*n),
                 Ob::Wire(p) => {
                     if wire_dead {
                         continue;
